@@ -838,6 +838,8 @@ func TestVerifC20Parse(t *testing.T) {
 	out := vh.Open("c20parse")
 	defer out.Close()
 	rn := c20NewRunner(t)
+	// read the run parameters before the cases start replacing the process environment
+	seed, n := vh.Seed(), vh.N(3000)
 	savedEnv := os.Environ()
 	defer func() {
 		os.Clearenv()
@@ -884,9 +886,8 @@ func TestVerifC20Parse(t *testing.T) {
 		}
 	}
 
-	n := vh.N(3000)
 	for i := 0; i < n; i++ {
-		r := vh.NewRng(vh.Seed()*7919 + uint64(i))
+		r := vh.NewRng(seed*7919 + uint64(i))
 		if i%8 == 7 {
 			cs := &c20Case{files: c20DirEntries()}
 			for _, k := range vcfg.EnvKeys {
